@@ -92,15 +92,18 @@ fn snapshot(job: &Value) -> Value {
             }
             let mut o = json!({
                 "range": rng(&pos),
-                "ent": ent.id().to_raw(),
                 "decl_ent": d.id().to_raw(),
                 "ent_pos": ent.decl_pos().map(loc),
                 "decl_pos": d.decl_pos().map(loc),
                 "dk": dk, "name": dt,
-                "describe": ent.describe(),
-                "library": is_lib,
-                "in_project": in_project,
             });
+            if full {
+                // verbose fields, only for interactive inspection ("full": true)
+                o["ent"] = json!(ent.id().to_raw());
+                o["describe"] = json!(ent.describe());
+                o["library"] = json!(is_lib);
+                o["in_project"] = json!(in_project);
+            }
             if full {
                 let cur = pos.range().start;
                 let iac = p.item_at_cursor(&src, cur).map(|(q, e)| {
@@ -118,7 +121,7 @@ fn snapshot(job: &Value) -> Value {
     let mut decls = BTreeMap::new();
     for (id, d) in decl_ids.iter() {
         let far: Vec<Value> = p.find_all_references(d).iter().map(loc).collect();
-        decls.insert(id.to_string(), json!({"far": far, "describe": d.describe()}));
+        decls.insert(id.to_string(), json!({"far": far}));
     }
     // explicit cursor queries: what rename.rs asks the project
     let mut answers = Vec::new();
